@@ -1,6 +1,6 @@
 #!/bin/bash
 # tools/run_all.sh [tier]  -- every claimed check on the current tree, sequentially; summary at the end
-cd /verif
+cd "$(dirname "$0")/.."; export VERIF_REPO="${VERIF_REPO:-/repo}"
 TIER=${1:-quick}
 for P in $(python3 -c "import json; print(' '.join(c['property_id'] for c in json.load(open('MANIFEST.json'))['checks']))"); do
   S=$(date +%s)
@@ -10,7 +10,7 @@ done
 python3-vt - <<'PY'
 import json, jsonschema, glob
 sch=json.load(open('/root/.vp/EVIDENCE.schema.json'))
-for f in sorted(glob.glob('/verif/evidence/*.json')):
+for f in sorted(glob.glob('evidence/*.json')):
     e=json.load(open(f)); jsonschema.validate(e, sch)
     c=e['coverage']; assert c['obligations']==c['discharged']>=1, f
 print('evidence valid')
